@@ -233,6 +233,33 @@ func IsValidSQLiteFile(path string) bool {
 	return IsValidSQLiteData(b)
 }
 
+// CheckSQLiteFile checks that the file at path is a database SQLite can actually
+// read: it has a valid header, it opens, and a quick integrity check of its
+// contents passes. It is a much stronger check than IsValidSQLiteFile, which only
+// looks at the first bytes of the file. The journal mode of the file is not changed.
+func CheckSQLiteFile(path string) error {
+	if !IsValidSQLiteFile(path) {
+		return fmt.Errorf("not a SQLite file")
+	}
+	wal, err := IsWALModeEnabledSQLiteFile(path)
+	if err != nil {
+		return err
+	}
+	db, err := Open(path, false, wal)
+	if err != nil {
+		return err
+	}
+	defer db.Close()
+	res, err := db.VerifyIntegrity()
+	if err != nil {
+		return err
+	}
+	if !res.OK {
+		return fmt.Errorf("integrity check failed: %s", res.Issues[0])
+	}
+	return nil
+}
+
 // IsValidSQLiteData checks that the supplied data looks like a SQLite data.
 // See https://www.sqlite.org/fileformat.html.
 func IsValidSQLiteData(b []byte) bool {
